@@ -1141,6 +1141,14 @@ MUTANTS = [
          old="                let field_hashes = field_names.iter().map(|field_name| {",
          new="                let field_hashes = field_names.iter().skip(1).map(|field_name| {",
          expect="C13.e/derive/every-field-hashed-once"),
+    dict(id="C16.e-lru-remove-keeps-the-region-length", prop="C16", file=ST + "tiny_lfu/lru.rs",
+         old="        self.list.unlink(node_ptr, region);\n        self.list.lens[region as usize] -= 1;\n",
+         new="        self.list.unlink(node_ptr, region);\n",
+         expect="C16.e/lru/region-counters-and-tags-follow-list-moves"),
+    dict(id="C16.e-lru-move-keeps-the-old-region-tag", prop="C16", file=ST + "tiny_lfu/lru.rs",
+         old="        let key = unsafe { &tail_ptr.as_ref().key };\n        let (_, region) = self.map.get_mut(key).unwrap();\n        *region = to_region;\n",
+         new="        let key = unsafe { &tail_ptr.as_ref().key };\n        let _ = self.map.get_mut(key).unwrap();\n",
+         expect="C16.e/lru/region-counters-and-tags-follow-list-moves"),
     # ------------------------------------------------------------------ C09.f (D5)
     dict(id="C09.f-D5-fold-heap-in-arbitrary-order", prop="C09", file=ST + "key_of_set_map/cache.rs",
          old="""        let mut ordered = log.iter().collect::<Vec<_>>();
